@@ -710,9 +710,11 @@ func main() {
 		"coverage": cov, "assumptions": spec.Assumptions, "wall_s": time.Since(t0).Seconds(), "violations": nViol,
 	}
 	eb, _ := json.MarshalIndent(ev, "", " ")
+	os.MkdirAll(filepath.Join(verifDir, "evidence"), 0o755)
 	if re == nil {
-		os.MkdirAll(filepath.Join(verifDir, "evidence"), 0o755)
 		os.WriteFile(filepath.Join(verifDir, "evidence", prop+".json"), eb, 0o644)
+	} else {
+		os.WriteFile(filepath.Join(verifDir, "evidence", "_partial_"+prop+".json"), eb, 0o644)
 	}
 	fmt.Printf("property=%s tier=%s instances=%d paths=%d obligations=%d (solver-decided %d) queries sat/unsat/unknown=%d/%d/%d solver=%.1fs wall=%.1fs violations=%d known=%d inconclusive=%d\n",
 		prop, *tier, len(insts), states, len(oblList), nontrivial, stats.Sat, stats.Unsat, stats.Unknown, stats.Time.Seconds(), time.Since(t0).Seconds(), nViol, len(knownLines), len(dedup(incon)))
